@@ -52,14 +52,22 @@ pub fn c08(args: &[String]) {
     let callers: usize = args[2].parse().unwrap();
     let calls: usize = args[3].parse().unwrap();
     let mode = args[4].clone();
-    set_scripts(&json!([
+    // a clique: 14 compounds that all look each other up (every simple path of the graph leads everywhere)
+    let mut clique: Vec<Value> = Vec::new();
+    for i in 0..14 {
+        let mut script: Vec<Value> = (0..14).filter(|j| *j != i).map(|j| json!({"op":"getp","ty":"N3","id":format!("k{j}")})).collect();
+        script.push(json!({"op":"read","id":format!("k{i}"),"ext":"x"}));
+        clique.push(json!({"ty":"N3","id":format!("k{i}"),"script":script}));
+    }
+    let mut all_scripts = clique.clone();
+    all_scripts.extend(json!([
         {"ty":"N0","id":"d","script":[{"op":"load","ty":"L0","id":"a","req":true},{"op":"load","ty":"L0","id":"b","req":false}]},
         {"ty":"N1","id":"p","script":[{"op":"get","ty":"N2","id":"q"},{"op":"read","id":"p","ext":"x"}]},
         {"ty":"N2","id":"q","script":[{"op":"get","ty":"N1","id":"p"},{"op":"read","id":"q","ext":"x"}]},
         {"ty":"N3","id":"s","script":[{"op":"get","ty":"N3","id":"s"},{"op":"read","id":"s","ext":"x"}]},
-        {"ty":"N4","id":"unused","script":[]},
         {"ty":"N1","id":"pack","script":[{"op":"loadn","id":"n","ext":"x","prefix":"m"}]},
-    ]));
+    ]).as_array().unwrap().iter().cloned());
+    set_scripts(&Value::Array(all_scripts));
     let src = MemSource::new(true);
     src.st.lock().unwrap().trace_reads = false;
     for id in ["a", "b", "c", "p", "q", "s"] {
@@ -69,6 +77,15 @@ pub fn c08(args: &[String]) {
     trace::take();
     let cache = Arc::new(AssetCache::with_source(src.clone()));
     if mode == "cycle" {
+        for round in 0..2 {
+            for i in 0..14 {
+                if round == 0 {
+                    src.put(&format!("k{i}"), "x", b"v1");
+                }
+                let _ = cache.load::<Node<3>>(&format!("k{i}"));
+            }
+            // the second round of loads finds everything cached; reloading one member re-learns its look-ups
+        }
         let _ = cache.load::<Node<1>>("p");
         let _ = cache.load::<Node<2>>("q");
         let _ = cache.load::<Node<3>>("s");
@@ -133,10 +150,15 @@ pub fn c08(args: &[String]) {
         handles.push(std::thread::spawn(move || {
             trace::set_thread(&format!("t{}", i + 1));
             caller_tids.lock().unwrap().push(unsafe { libc::syscall(libc::SYS_gettid) } as u64);
-            for _ in 0..calls {
+            for k in 0..calls {
                 cache.hot_reload();
                 trace::emit(json!({"ev":"End","op":"hot_reload"}));
                 progress.fetch_add(1, Ordering::SeqCst);
+                // leave the reloader time to take events between calls (it takes one batch per wake-up), so that
+                // passes really reload things; every 16th call follows the previous one at once
+                if k % 16 != 15 {
+                    std::thread::sleep(std::time::Duration::from_micros(150 + 97 * ((k + i) % 5) as u64));
+                }
             }
         }));
     }
@@ -179,7 +201,7 @@ pub fn c08(args: &[String]) {
             let mut n = 0u64;
             while !stop.load(Ordering::SeqCst) {
                 n += 1;
-                let ids: &[&str] = if mode == "cycle" { &["p", "q", "s", "a"] } else { &["a", "b", "c"] };
+                let ids: &[&str] = if mode == "cycle" { &["p", "q", "s", "a", "k0", "k7"] } else { &["a", "b", "c"] };
                 let id = ids[rng.gen_range(0..ids.len())];
                 src.put(id, "x", format!("v{}", n % 1000).as_bytes());
                 let mut batch = vec![OwnedDirEntry::File(id.into(), "x".into())];
@@ -491,6 +513,26 @@ fn uniform(w: &[u64]) -> (u64, bool) {
     (first, ok)
 }
 
+/// A compound whose `load` keeps a read guard on the big value for a while: the guard is taken while the
+/// calling thread records dependencies (inside `Compound::load` on a user thread) and must pin like any other.
+pub struct HoldGuard;
+impl assets_manager::Compound for HoldGuard {
+    fn load(cache: assets_manager::AnyCache, _id: &assets_manager::SharedString) -> Result<Self, assets_manager::BoxedError> {
+        let h = cache.load::<Inline>("a")?;
+        let g = h.read();
+        let rid = crate::front::rid_of(h.last_reload_id());
+        let (v, _) = uniform(&g.words);
+        trace::emit(json!({"ev":"GuardAcq","rid":rid,"val":v}));
+        std::thread::sleep(std::time::Duration::from_micros(900));
+        let (v2, ok) = uniform(&g.words);
+        let rid2 = crate::front::rid_of(h.last_reload_id());
+        trace::emit(json!({"ev":"GuardRel","rid":rid2,"val":v2,"uniform":ok}));
+        drop(g);
+        Ok(HoldGuard)
+    }
+    const HOT_RELOADED: bool = false;
+}
+
 /// `amv c07-stress <out.ndjson> <seed> <writes> <mode: local|static>`
 pub fn c07(args: &[String]) {
     let out = args[0].clone();
@@ -585,6 +627,17 @@ pub fn c07(args: &[String]) {
             }
         }));
     }
+    // a reader whose guard lives inside a Compound::load
+    {
+        let stop = stop.clone();
+        readers.push(std::thread::spawn(move || {
+            trace::set_thread("lg");
+            while !stop.load(Ordering::SeqCst) {
+                let _ = cache.load_owned::<HoldGuard>("hg");
+                std::thread::sleep(std::time::Duration::from_micros(300));
+            }
+        }));
+    }
     // ReloadWatchers polled in tight loops against the rewrites: a rewrite that happened since the last `true`
     // (the id read before the poll is newer than the id read right after that `true`) must be reported
     let missed_reports = Arc::new(AtomicU64::new(0));
@@ -654,7 +707,32 @@ pub fn c07(args: &[String]) {
         }
     }
     trace::write_ndjson(&out, &proj).unwrap();
-    println!("REPORT {}", json!({"events":proj.len(),"torn":torn,"final_rid":crate::front::rid_of(h.last_reload_id()),"writes":writes,
+    // a reload that takes longer than any plausible patience: hot_reload returns only after it
+    let mut early_return = false;
+    let mut slow_ok = true;
+    if !is_static {
+        let gate = crate::mem::Gate::new();
+        src.put("a", "x", format!("v{}", writes + 1).as_bytes());
+        src.set_gate("a", "x", gate.clone());
+        let n0 = trace::len();
+        src.send(&[OwnedDirEntry::File("a".into(), "x".into())]);
+        let _ = trace::wait_until(std::time::Duration::from_secs(10), |l| l.iter().skip(n0).any(|x| x["ev"] == "EventsEnd"));
+        let returned = Arc::new(AtomicBool::new(false));
+        let r2 = returned.clone();
+        let t = std::thread::spawn(move || {
+            cache.hot_reload();
+            r2.store(true, Ordering::SeqCst);
+        });
+        let arrived = gate.wait_arrived(1, std::time::Duration::from_secs(10));
+        std::thread::sleep(std::time::Duration::from_millis(1400));
+        early_return = arrived && returned.load(Ordering::SeqCst);
+        gate.open();
+        src.clear_gates();
+        let _ = t.join();
+        slow_ok = arrived && uniform(&h.read().words).0 == writes + 1;
+    }
+    println!("REPORT {}", json!({"events":proj.len(),"torn":torn,"final_rid":crate::front::rid_of(h.last_reload_id()) - if is_static { 0 } else { 1 },"writes":writes,
+        "hot_reload_returned_before_slow_reload":early_return,"slow_reload_applied":slow_ok,
         "watcher_polls":polls.load(Ordering::SeqCst),"missed_reports":missed_reports.load(Ordering::SeqCst)}));
 }
 
